@@ -67,6 +67,11 @@ VerdictC(p, e, s) ==
                  ELSE OK
          [] e.op = "LoadedRound" ->
               IF e.mismatches = 0 THEN OK ELSE V("isloaded-disagrees-with-loaded-message-at-quiescence", 0, [mismatches |-> e.mismatches, first_round |-> e.first])
+         [] e.op = "UnloadedRound" ->
+              IF e.loaded_true > 0 THEN V("unloaded-filter-reported-loaded", 0, e.loaded_true)
+              ELSE IF e.msg_nonnil > 0 THEN V("unloaded-filter-returned-a-message", 0, e.msg_nonnil)
+              ELSE IF e.match_true > 0 THEN V("unloaded-filter-matched", 0, e.match_true)
+              ELSE OK
          [] e.op = "RaceDetector" -> IF e.reports = 0 THEN OK ELSE V("data-race", 0, e.first)
          [] e.op = "GcsConc" -> IF e.bytesbefore # e.bytesafter THEN V("gcs-filter-mutated-by-queries", 0, 1)
                                 ELSE IF \E g \in 1..Len(e.conc) : e.conc[g] # e.seq THEN V("gcs-concurrent-answers-differ", e.seq, "differs")
